@@ -942,8 +942,10 @@ def np_column_stack(cols):
 
 
 @model('np.clip/minimum/maximum', 'elementwise min/max/clip')
-def np_clip(x, lo, hi):
-    return values.clip(_num(x), _num(lo), _num(hi))
+def np_clip(x, a_min=None, a_max=None, **kw):
+    lo = kw.get('min', a_min)
+    hi = kw.get('max', a_max)
+    return values.clip(_num(x), _num(lo) if lo is not None else None, _num(hi) if hi is not None else None)
 
 
 def np_minimum(a, b):
@@ -2392,7 +2394,15 @@ def np_linalg_inv(A):
     return ConcArr([[Sym(ir.uf('inv', ts + [ir.const(i), ir.const(j)])) for j in range(n)] for i in range(n)])
 
 
-NP._table['linalg'] = Stub('numpy.linalg', {'cond': np_linalg_cond, 'inv': np_linalg_inv})
+def np_linalg_solve(A, B):
+    """solve(A, B) = A^-1 B, expressed with the same uninterpreted inverse as np.linalg.inv (so that code using one or the
+    other computes the same terms)"""
+    USED['np.linalg.solve'] = 'np.linalg.solve(A, B): the solution X of A X = B, i.e. inv(A) @ B (deterministic function of A, B)'
+    return _concarr_binop(np_linalg_inv(A), _I(), 'MatMult', B, False)
+
+
+NP._table['linalg'] = Stub('numpy.linalg', {'cond': np_linalg_cond, 'inv': np_linalg_inv, 'solve': np_linalg_solve})
+NP._table['ascontiguousarray'] = lambda x, dtype=None, **k: np_asarray(x, dtype)
 
 
 def _np_zeros2(shape, dtype=None):
